@@ -88,6 +88,9 @@ type kindFlow struct {
 	in      map[*ssa.BasicBlock]KindSet
 	reached map[*ssa.BasicBlock]bool
 	full    func(cond ssa.Value, cur KindSet) (KindSet, KindSet)
+	entry   KindSet // kinds at function entry (AllKinds unless this is the flow of a helper seen from its callers)
+	hasEnt  bool
+	subs    map[*ssa.Function]*kindFlow
 }
 
 // refine returns the kind sets on the true and false outcome of cond.
@@ -241,6 +244,9 @@ func (kf *kindFlow) solve() {
 		return
 	}
 	kf.in[fn.Blocks[0]] = AllKinds
+	if kf.hasEnt {
+		kf.in[fn.Blocks[0]] = kf.entry
+	}
 	kf.reached[fn.Blocks[0]] = true
 	work := []*ssa.BasicBlock{fn.Blocks[0]}
 	steps := 0
@@ -269,6 +275,11 @@ func (kf *kindFlow) solve() {
 
 // At returns the possible kinds of the subject just before instruction i.
 func (kf *kindFlow) At(i ssa.Instruction) KindSet {
+	if i.Parent() != kf.fn {
+		if sub := kf.sub(i.Parent()); sub != nil {
+			return sub.At(i)
+		}
+	}
 	b := i.Block()
 	if !kf.reached[b] {
 		return 0
@@ -304,4 +315,73 @@ func cellSubject(cell *ssa.Alloc, plain ssa.Value) (func(ssa.Value) bool, func(s
 		return false
 	}
 	return subject, kills
+}
+
+// sub: the flow of the same subject inside a transparent helper h called (only) from this flow's function
+// or from its helpers: the helper's parameters that receive the subject at every call site are the subject
+// there, and the kinds at entry are those possible at the call sites.
+func (kf *kindFlow) sub(h *ssa.Function) *kindFlow {
+	if kf.subs == nil {
+		kf.subs = map[*ssa.Function]*kindFlow{}
+	}
+	if s, ok := kf.subs[h]; ok {
+		return s
+	}
+	kf.subs[h] = nil // guards against recursion
+	c := curCtx
+	if c == nil || h == nil || h.Parent() != nil || !c.transparent(h) {
+		return nil
+	}
+	sites := c.P.CallIndex().Sites[h]
+	if len(sites) == 0 {
+		return nil
+	}
+	subj := map[ssa.Value]bool{}
+	var entry KindSet
+	for pi, q := range h.Params {
+		all := true
+		for _, site := range sites {
+			args := site.Common().Args
+			if pi >= len(args) {
+				all = false
+				break
+			}
+			var callerFlow *kindFlow
+			switch {
+			case site.Parent() == kf.fn:
+				callerFlow = kf
+			default:
+				callerFlow = kf.sub(outermost(site.Parent()))
+				if callerFlow != nil && site.Parent() != callerFlow.fn {
+					callerFlow = nil // a call from a closure: not modelled
+				}
+			}
+			if callerFlow == nil || !callerFlow.subject(args[pi]) {
+				all = false
+				break
+			}
+		}
+		if !all {
+			continue
+		}
+		for v := range subjectSet(h, q) {
+			subj[v] = true
+		}
+	}
+	if len(subj) == 0 {
+		return nil
+	}
+	for _, site := range sites {
+		if site.Parent() == kf.fn {
+			entry |= kf.At(site)
+		} else if cf := kf.sub(outermost(site.Parent())); cf != nil {
+			entry |= cf.At(site)
+		} else {
+			entry = AllKinds
+		}
+	}
+	s := &kindFlow{fn: h, subject: func(v ssa.Value) bool { return subj[v] }, in: map[*ssa.BasicBlock]KindSet{}, reached: map[*ssa.BasicBlock]bool{}, full: nil, entry: entry, hasEnt: true}
+	s.solve()
+	kf.subs[h] = s
+	return s
 }
